@@ -29,8 +29,13 @@ VARIABLES own,   \* own[p] = owner of the token at position p, 0 = no token ther
 
 vars == <<own, zone>>
 
-Toks(i)     == {p \in TokPos : own[p] = i}
-ZoneToks(z) == {p \in TokPos : own[p] # 0 /\ zone[own[p]] = z}
+(***************************************************************************)
+(* Parameterised operators (also used by TokenRangesTrace on recorded      *)
+(* rings, where the layout differs from line to line).  o = own, zn = zone,*)
+(* nk = number of key classes.                                             *)
+(***************************************************************************)
+ToksP(o, i)         == {p \in DOMAIN o : o[p] = i}
+ZoneToksP(o, zn, z) == {p \in DOMAIN o : o[p] > 0 /\ zn[o[p]] = z}
 
 (* Definition 1 - what a lookup does (C01 restricted to one zone): the key *)
 (* belongs to the owner of the first token strictly greater than the key,  *)
@@ -38,8 +43,8 @@ ZoneToks(z) == {p \in TokPos : own[p] # 0 /\ zone[own[p]] = z}
 Succ(S, k) == IF \E p \in S : p > k
               THEN CHOOSE p \in S : p > k /\ \A q \in S : q > k => p <= q
               ELSE CHOOSE p \in S : \A q \in S : p <= q
-LookupOwner(z, k) == IF ZoneToks(z) = {} THEN 0 ELSE own[Succ(ZoneToks(z), k)]
-OwnedKeys(i) == {k \in Key : LookupOwner(zone[i], k) = i}
+LookupOwnerP(o, zn, z, k) == IF ZoneToksP(o, zn, z) = {} THEN 0 ELSE o[Succ(ZoneToksP(o, zn, z), k)]
+OwnedKeysP(nk, o, zn, i)  == {k \in 0..(nk-1) : LookupOwnerP(o, zn, zn[i], k) = i}
 
 (* Definition 2 - what "token ranges" are documented to be: the token t    *)
 (* owns the keys from the previous token of its zone (inclusive) up to t-1 *)
@@ -47,8 +52,14 @@ OwnedKeys(i) == {k \in Key : LookupOwner(zone[i], k) = i}
 Pred(S, t) == IF \E p \in S : p < t
               THEN CHOOSE p \in S : p < t /\ \A q \in S : q < t => q <= p
               ELSE CHOOSE p \in S : \A q \in S : q <= p
-CycRange(a, b) == IF a < b THEN a..(b-1) ELSE (a..(NK-1)) \cup (0..(b-1))
-RangeKeys(i) == UNION {CycRange(Pred(ZoneToks(zone[i]), t), t) : t \in Toks(i)}
+CycRangeP(nk, a, b) == IF a < b THEN a..(b-1) ELSE (a..(nk-1)) \cup (0..(b-1))
+RangeKeysP(nk, o, zn, i) == UNION {CycRangeP(nk, Pred(ZoneToksP(o, zn, zn[i]), t), t) : t \in ToksP(o, i)}
+
+Toks(i)           == ToksP(own, i)
+ZoneToks(z)       == ZoneToksP(own, zone, z)
+LookupOwner(z, k) == LookupOwnerP(own, zone, z, k)
+OwnedKeys(i)      == OwnedKeysP(NK, own, zone, i)
+RangeKeys(i)      == RangeKeysP(NK, own, zone, i)
 
 TypeOK == /\ own \in [TokPos -> 0..N]
           /\ zone \in [Owner -> 1..Z]
